@@ -339,7 +339,9 @@ impl ASN1Type {
                         .iter()
                         .any(|m| m.ty.contains_components_of_notation())
             }
-            ASN1Type::SequenceOf(so) => so.element_type.contains_components_of_notation(),
+            ASN1Type::SequenceOf(so) | ASN1Type::SetOf(so) => {
+                so.element_type.contains_components_of_notation()
+            }
             _ => false,
         }
     }
@@ -362,7 +364,8 @@ impl ASN1Type {
                 // TODO: link components of Class field, such as COMPONENTS OF BILATERAL.&id
                 for comp_link in &s.components_of {
                     if let Some(ToplevelDefinition::Type(linked)) = tlds.get(comp_link) {
-                        if let ASN1Type::Sequence(linked_seq) = &linked.ty {
+                        if let ASN1Type::Sequence(linked_seq) | ASN1Type::Set(linked_seq) = &linked.ty
+                        {
                             linked_seq
                                 .members
                                 .iter()
@@ -381,7 +384,9 @@ impl ASN1Type {
                 }
                 member_linking
             }
-            ASN1Type::SequenceOf(so) => so.element_type.link_components_of_notation(tlds),
+            ASN1Type::SequenceOf(so) | ASN1Type::SetOf(so) => {
+                so.element_type.link_components_of_notation(tlds)
+            }
             _ => false,
         }
     }
@@ -793,7 +798,9 @@ impl ASN1Type {
     pub fn references_class_by_name(&self) -> bool {
         match self {
             ASN1Type::Choice(c) => c.options.iter().any(|o| o.ty.references_class_by_name()),
-            ASN1Type::Sequence(s) => s.members.iter().any(|m| m.ty.references_class_by_name()),
+            ASN1Type::Sequence(s) | ASN1Type::Set(s) => {
+                s.members.iter().any(|m| m.ty.references_class_by_name())
+            }
             ASN1Type::SequenceOf(so) => so.element_type.references_class_by_name(),
             ASN1Type::ObjectClassField(ocf) => {
                 matches!(
@@ -822,20 +829,8 @@ impl ASN1Type {
                     .collect(),
                 constraints: c.constraints,
             }),
-            ASN1Type::Sequence(s) => ASN1Type::Sequence(SequenceOrSet {
-                extensible: s.extensible,
-                constraints: s.constraints,
-                components_of: s.components_of,
-                members: s
-                    .members
-                    .into_iter()
-                    .map(|mut member| {
-                        member.constraints = vec![];
-                        member.ty = member.ty.resolve_class_reference(tlds);
-                        member
-                    })
-                    .collect(),
-            }),
+            ASN1Type::Sequence(s) => ASN1Type::Sequence(s.resolve_class_reference(tlds)),
+            ASN1Type::Set(s) => ASN1Type::Set(s.resolve_class_reference(tlds)),
             ASN1Type::ObjectClassField(_) => self.reassign_type_for_ref(tlds),
             _ => self,
         }
@@ -868,6 +863,25 @@ impl ASN1Type {
             }
         }
         Ok(())
+    }
+}
+
+impl SequenceOrSet {
+    fn resolve_class_reference(self, tlds: &BTreeMap<String, ToplevelDefinition>) -> Self {
+        SequenceOrSet {
+            extensible: self.extensible,
+            constraints: self.constraints,
+            components_of: self.components_of,
+            members: self
+                .members
+                .into_iter()
+                .map(|mut member| {
+                    member.constraints = vec![];
+                    member.ty = member.ty.resolve_class_reference(tlds);
+                    member
+                })
+                .collect(),
+        }
     }
 }
 
